@@ -12,9 +12,10 @@ are not counted, by either. Only property theorems live here; helper lemmas are 
 -/
 import RuschmProofs.BracketLemmas
 import RuschmProofs.TextLemmas
+import RuschmProofs.TextSamples
 
 namespace Ruschm.C18
-open Ruschm Ruschm.Lex Ruschm.Text
+open Ruschm Ruschm.Lex Ruschm.Text Ruschm.Text.Samples
 
 /-- The counter's final count is the nesting depth of the token stream. No side condition beyond
 "the text tokenises": a `,` as very last character (dropped by the lexer) and a comment that
@@ -47,36 +48,17 @@ theorem bracket_of_rendered (ts : List Token) (layout : List (List Char))
 section Example
 /-- `(f #\( "a)" |b)| ;)` + newline + `#(1`: two lists are open; the parentheses in the character
 literal, the string, the quoted identifier and the comment count for neither side. -/
-private def sampleToks : List Token :=
-  [.lparen, .ident "f", .prim (.chr '('), .prim (.str "a)"), .ident "b)", .vecIntro,
-    .prim (.int 1)]
+example : interleave toksB layoutToksB = "(f #\\( \"a)\" |b)| ;)\n#(1".toList := by decide
 
-private def sampleLayout : List (List Char) :=
-  [[], [], [' '], [' '], [' '], " ;)\n".toList, [], []]
-
-private def sampleToks_supported : ∀ t ∈ sampleToks, SupportedTok t := by
-  intro t ht
-  simp only [sampleToks, List.mem_cons, List.not_mem_nil, or_false] at ht
-  rcases ht with rfl | rfl | rfl | rfl | rfl | rfl | rfl
-  · trivial
-  · exact Or.inl (by decide)
-  · trivial
-  · trivial
-  · exact Or.inr (by decide)
-  · trivial
-  · show fitsI32 1 = true; decide
-
-example : interleave sampleToks sampleLayout = "(f #\\( \"a)\" |b)| ;)\n#(1".toList := by decide
-
-example : (Lex.all "(f #\\( \"a)\" |b)| ;)\n#(1".toList).1.map (·.tok) = sampleToks ∧
+example : (Lex.all "(f #\\( \"a)\" |b)| ;)\n#(1".toList).1.map (·.tok) = toksB ∧
     (Lex.all "(f #\\( \"a)\" |b)| ;)\n#(1".toList).2 = none := by
-  have h := all_render sampleToks sampleLayout sampleToks_supported (by decide)
+  have h := all_render toksB layoutToksB toksB_supported (by decide)
   exact h
 
-example : depth sampleToks = 2 := by decide
+example : depth toksB = 2 := by decide
 
 example : Bracket.closed "(f #\\( \"a)\" |b)| ;)\n#(1".toList = false := by
-  have h := bracket_of_rendered sampleToks sampleLayout sampleToks_supported (by decide)
+  have h := bracket_of_rendered toksB layoutToksB toksB_supported (by decide)
   exact h
 
 /-- … and the counter computes the same answer by itself -/
